@@ -2,6 +2,7 @@ import Driver.Util
 import Driver.DeployId
 import Driver.Engine
 import Driver.Policy
+import Driver.PolicyTree
 import Driver.Handlers
 import Driver.Version
 import Driver.Validate
@@ -29,6 +30,7 @@ import Driver.StreamGate
 import Driver.DbosTimer
 import Driver.SerialCtx
 import Driver.Slots
+import Driver.WorkerCleanup
 
 def main (args : List String) : IO UInt32 := do
   let stdin ← IO.getStdin
@@ -37,6 +39,7 @@ def main (args : List String) : IO UInt32 := do
   | ["engine"] => Drv.loop stdin Drv.Engine.step {}; return 0
   | ["slots"] => Drv.loop stdin Drv.Slots.step {}; return 0
   | ["policy"] => Drv.loop stdin Drv.Policy.step (); return 0
+  | ["policytree"] => Drv.loop stdin Drv.PolicyTree.step (); return 0
   | ["handlers"] => Drv.loop stdin Drv.Handlers.step (); return 0
   | ["version"] => Drv.loop stdin Drv.Version.step (); return 0
   | ["validate"] => Drv.loop stdin Drv.Validate.step (); return 0
@@ -63,4 +66,5 @@ def main (args : List String) : IO UInt32 := do
   | ["streamgate"] => Drv.loop stdin Drv.StreamGate.step {}; return 0
   | ["dbostimer"] => Drv.loop stdin Drv.DbosTimer.step []; return 0
   | ["serialctx"] => Drv.loop stdin Drv.SerialCtx.step {}; return 0
+  | ["workercleanup"] => Drv.loop stdin Drv.WorkerCleanup.step (); return 0
   | _ => IO.eprintln "usage: wfdriver <model>"; return 2
